@@ -183,7 +183,7 @@ P = {
     "classify_i2s": c20_class_i2s,
     "required_classes": ["attr/%s/%s" % (a, l) for a in ATTR_KINDS for l in LEVELS]
                         + ["cp/%s" % k for k in CP_KINDS]
-                        + ["pool/empty", "pool/none", "pool/start", "pool/mid", "pool/end", "header", "pair", "incons"]
+                        + ["pool/empty", "pool/none", "pool/start", "pool/mid", "pool/end", "header", "pair", "incons", "hist"]
                         + ["wf/%s" % k for k in WF_KINDS]
                         + ["frame/%s" % k for k in FRAME_KINDS] + ["ev/%s" % k for k in EV_KINDS],
     "signature": c20_sig,
